@@ -664,7 +664,53 @@ func tamperKinds(w *World) []tamperKind {
 			return true
 		}},
 		{"empty", func(w *World, k string) bool { w.Tamper(k, []byte{}, "empty"); return true }},
+		// a partial data tile replaced by a well-formed prefix of itself, cut at an entry
+		// boundary (what an older partial tile of the same index holds): all but the last
+		// entry, the first entry only, and no entry at all
+		{"fewer-entries", func(w *World, k string) bool { return dataTilePrefix(w, k, -1) }},
+		{"first-entry-only", func(w *World, k string) bool { return dataTilePrefix(w, k, 1) }},
+		{"no-entries", func(w *World, k string) bool { return dataTilePrefix(w, k, 0) }},
 	}
+}
+
+// dataTilePrefix replaces a data tile by the first keep entries of itself (keep < 0:
+// all but the last one), re-compressed. False if the key is no data tile or has
+// too few entries for the cut to change anything.
+func dataTilePrefix(w *World, key string, keep int) bool {
+	if KeyClass(key) != "data" {
+		return false
+	}
+	b, ok := w.Object(key)
+	if !ok {
+		return false
+	}
+	raw, err := gunzip(b)
+	if err != nil {
+		return false
+	}
+	var cuts []int // byte offsets after each entry
+	rest := raw
+	for len(rest) > 0 {
+		_, r2, err := DecodeTileLeaf(rest)
+		if err != nil {
+			return false
+		}
+		cuts = append(cuts, len(raw)-len(r2))
+		rest = r2
+	}
+	n := len(cuts)
+	if keep < 0 {
+		keep = n - 1
+	}
+	if keep >= n || keep < 0 {
+		return false
+	}
+	end := 0
+	if keep > 0 {
+		end = cuts[keep-1]
+	}
+	w.Tamper(key, gz(raw[:end]), fmt.Sprintf("prefix-%d-of-%d", keep, n))
+	return true
 }
 
 // FamilyTamper: storage is altered while the log is down (and, for a few
@@ -738,6 +784,9 @@ func FamilyTamper(r *Runner) {
 				}
 				for _, kind := range tamperKinds(nil) {
 					if cls == "roots" && kind.name != "delete" && kind.name != "bitflip" {
+						continue
+					}
+					if cls != "data" && (kind.name == "fewer-entries" || kind.name == "first-entry-only" || kind.name == "no-entries") {
 						continue
 					}
 					r.Scenario(fmt.Sprintf("tamper/b%d/ahead=%v/%s/%s", base, lockAhead, key, kind.name), false, func(w *World) error {
